@@ -5,3 +5,4 @@ import PGV.Props.C12
 #print axioms PGV.Props.C12.C12_history_independent
 #print axioms PGV.Props.C12.C12_writes_independent_of_buffer
 #print axioms PGV.Props.C12.C12_pool_inv_init
+#print axioms PGV.Props.C12.C12_no_aliasing
